@@ -8,6 +8,7 @@
   construction on the operands' matrices.
 -/
 import Scico.Proofs.OpAlgReject
+import Scico.Proofs.OpAlgStackTree
 
 namespace Scico.Props.C05
 open Scico.OpAlg Scico.DType
@@ -141,6 +142,33 @@ theorem C05_operator_pointwise (a b : Obj K) (c : Scal K) (x : Vc K) :
    fun cfg o h => (opComp_pointwise cfg h x).1,
    fun hb sub => addSub_with_operator sub a b hb⟩
 
+/-- **Vertical stack.**  `VerticalStack([e₁, …, e_N], collapse_output)` of linear expressions (any
+    classes, any depth, any number of operands, collapsed to `(N, *S)` or left as a block array) computes
+    `x ↦ [den e₁; …; den e_N] · x`; its adjoint `y ↦ Σ_k (den e_k)ᴴ y_k` is the conjugate transpose of that
+    concatenation; its output size is the sum of the operands' and all operands share its input size. -/
+theorem C05_vstack_eq_den (es : List (LExpr K)) (collapse : Bool) (o : Obj K) (hin : AllIn es)
+    (h : buildVStack true es collapse = .ok o) (x y : Vc K) :
+    (∀ i, (o.eval x).get i = if i < rowsOf es then mulVec o.n (vcatDen es) x.get i else 0)
+    ∧ (∀ j, (o.adj y).get j = if j < o.n then mulVecH (rowsOf es) (vcatDen es) y.get j else 0)
+    ∧ o.md.outShape.size = rowsOf es ∧ (∀ e ∈ es, (dims e).2 = o.md.inShape.size) := by
+  obtain ⟨hS, hm, hn⟩ := buildVStack_sound es collapse o hin h
+  refine ⟨fun i => ?_, fun j => ?_, hm, hn⟩
+  · rw [hS.ev x i, hm]
+  · rw [hS.ad y j, hm]
+
+/-- **Diagonal stack.**  `DiagonalStack([e₁, …, e_N], collapse_input, collapse_output)` computes
+    `x ↦ diag(den e₁, …, den e_N) · x` on the stacked / block input; the adjoint is the conjugate
+    transpose; sizes are the sums of the operands' sizes. -/
+theorem C05_dstack_eq_den (es : List (LExpr K)) (cIn cOut : Bool) (o : Obj K) (hin : AllIn es)
+    (h : buildDStack true es cIn cOut = .ok o) (x y : Vc K) :
+    (∀ i, (o.eval x).get i = if i < rowsOf es then mulVec (colsOf es) (bdiagDen es) x.get i else 0)
+    ∧ (∀ j, (o.adj y).get j = if j < colsOf es then mulVecH (rowsOf es) (bdiagDen es) y.get j else 0)
+    ∧ o.md.outShape.size = rowsOf es ∧ o.md.inShape.size = colsOf es := by
+  obtain ⟨hS, hm, hn⟩ := buildDStack_sound es cIn cOut o hin h
+  refine ⟨fun i => ?_, fun j => ?_, hm, hn⟩
+  · rw [hS.ev x i, hm, hn]
+  · rw [hS.ad y j, hm, hn]
+
 end
 
 /-! ### non-vacuity: the hypotheses are satisfiable on concrete trees over ℚ -/
@@ -173,6 +201,20 @@ example : PlainDiagProducts exE := by
 example : ∃ m, infer exE = .ok m := ⟨_, rfl⟩
 /-- a shape mismatch: `M (3×3) + Identity((2,))` -/
 example : dims exM ≠ dims (LExpr.ident (.plain [2]) .f64 : LExpr ℚ) := by decide
+
+/-- a vertical and a diagonal stack of `M` (3×3) and `Identity((3,))`: accepted, inside the regime -/
+example : AllIn [exM, LExpr.ident (.plain [3]) .f64] := by
+  intro e he
+  simp only [List.mem_cons, List.mem_nil_iff, or_false] at he
+  rcases he with rfl | rfl
+  · exact ⟨by simp [exM, Lin], by simp [exM, PlainDiagProducts], Or.inl (fun _ => ⟨rfl, rfl⟩)⟩
+  · exact ⟨by simp [Lin], by simp [PlainDiagProducts], Or.inl (fun _ => ⟨rfl, rfl⟩)⟩
+example : ∃ o, buildVStack true [exM, LExpr.ident (.plain [3]) .f64] true = .ok o
+    ∧ o.md.outShape = .plain [2, 3] := ⟨_, rfl, rfl⟩
+example : ∃ o, buildVStack true [exM, LExpr.ident (.plain [3]) .f64] false = .ok o
+    ∧ o.md.outShape = .nested [[3], [3]] := ⟨_, rfl, rfl⟩
+example : ∃ o, buildDStack true [exM, LExpr.ident (.plain [3]) .f64] true false = .ok o
+    ∧ o.md.inShape = .plain [2, 3] ∧ o.md.outShape = .nested [[3], [3]] := ⟨_, rfl, rfl, rfl⟩
 
 end examples
 
